@@ -64,6 +64,9 @@ def handler_branches(ctx: Ctx, rule: str, tf: Func, h: ast.ExceptHandler, exc_pa
 
 
 def run(ctx: Ctx) -> None:
+    from . import c03 as _c03, c06 as _c06
+    _c03.parallel_guard(ctx, "R13.6")
+    _c06.r06_10(ctx, rule="R13.7")  # each task decodes its own folder's byte window
     ex = ctx.prog.func("py7zr", "Worker.extract")
     cfg = cfg_of(ex.node)
     spawns = list(spawn_sites(ctx, ex))
